@@ -25,10 +25,14 @@ Sub-streams (all run for `arg == "X-mul"`; `arg` may also name one of them: fact
   maxsub   `_max_subroutine(game, coalition, size, eps)`: size an integer −1..n+1 or a k-value `2^k·sqrt(n)`; eps from
            {1/2, 1/4, 3/8, 1/8, 1/16, 0.05, 0.3, 0.9, 1, 1.5}.  The DISCRETE outputs (constructed coalition, the list of
            queried ids in order) are compared exactly.  `schedule-exact` counts the cases in which every
-           `reduced_limit` of the geometric schedule and the loop bound are exactly representable (then float64 = Rat
-           on every comparison); in the other cases (`schedule-rounded`) the schedule carries ≤ 1 ulp per pass, the
-           discrete outputs are still compared exactly (a flip needs a marginal contribution within ~1e-15 of a limit)
-           and counted apart.  Oracle: result ⊆ coalition; `len(result) + 1 ≤ max(ceil(size), 1)` (the code's test is
+           `reduced_limit` of the geometric schedule and the loop bound are exactly representable: then float64 = Rat on
+           every comparison and one model line is compared as a string.  Otherwise (`schedule-rounded`: decimal eps, long
+           schedules) a marginal contribution can sit exactly on a limit that float64 rounds the other way (10·0.7 vs 7);
+           FLOAT-TIE GUARD (`add_guarded`): the model is asked at eps·(1−δ), eps, eps·(1+δ), δ = 2^-30; every comparison
+           of the loop is monotone in eps along a fixed trajectory, so three equal answers (`guarded:stable`) pin the
+           answer for every schedule in between, the rounded one included, and the real answer must equal it; otherwise
+           (`guarded:float-near-tie`) the real answer must be one of the three.  Nothing is compared with a tolerance.
+           Oracle: result ⊆ coalition; `len(result) + 1 ≤ max(ceil(size), 1)` (the code's test is
            `len + 1 >= size` BEFORE adding, so at most ceil(size) − 1 players); every queried id is a subset of the
            coalition of the form C + player with C ⊆ result; the call returns (watchdog).  Malformed: a singleton
            value < 1 (err:assert), unknown values (err:value), empty coalition (no query at all).
@@ -43,11 +47,13 @@ Sub-streams (all run for `arg == "X-mul"`; `arg` may also name one of them: fact
            model proves that the candidate loop returns.  A case is skipped for the comparison (`skipped:float-tie`)
            when a singleton value sits exactly on a heavy/light threshold that float64 does not reproduce.
            Game families: random subadditive monotone integer games (closure), weighted coverage, budget additive
-           (both submodular), staircase ⌈|S∩L|/m⌉ + additive (subadditive, not submodular), coverage / budget scaled by
-           1/min singleton like the repo's own test (non-dyadic floats: "scaled" sub-stream, inputs passed to the model
-           as the exact rationals of the float64 values), and two pinned games (see FINDING below).
-           Oracle: approx ≤ game on the SUBMODULAR families (what the repo's test checks), approx(∅) = 0, ≥ largest
-           singleton, monotone; `mul_factor_to_approximation(game, approx)` then succeeds with a result ≥ 1.
+           (both submodular), staircase ⌈|S∩L|/m⌉ + additive (subadditive, not submodular), and two pinned games (see
+           FINDING below); eps = 0.05 goes through the float-tie guard above.  Coverage / budget games scaled by
+           1/min singleton like the repo's own test have non-dyadic float values on which float64 subtraction rounds:
+           they are run for the ORACLE only (`oracle-only(scaled)`), not compared with the model.
+           Oracle: approx ≤ game on the SUBMODULAR families (what the repo's test checks; proved for the model:
+           `ICG.Mul.maxXos_lower_bound_submodular`), approx(∅) = 0, ≥ largest singleton, monotone, the call returns;
+           `mul_factor_to_approximation(game, approx)` then succeeds with a result ≥ 1.
 
 FINDING (reported as violation key `max_xos:lower-bound:subadditive`): `compute_max_xos_approximation` documents "the
 game is expected to be subadditive and monotone increasing"; the pinned game `PIN10` (n = 10, monotone, subadditive,
@@ -55,7 +61,12 @@ singletons ≥ 1, values multiples of 1/1024) gets, with the DEFAULT parameters,
 1.2265625, so the result is not a lower bound and `mul_factor_to_approximation(game, approx)` raises AssertionError.
 `PIN6` is the same phenomenon at n = 6 with alpha = beta = 1, eps = 1/8.  Both instances are decided in Lean on the
 model (`ICG.Mul.lower_bound_fails_subadditive`, `ICG.Mul.lower_bound_fails_default`); for monotone SUBMODULAR games the
-lower bound is proved (`ICG.Mul.maxXos_lower_bound_submodular`).  The marginal-contribution vector is an XOS clause only for submodular games.
+lower bound is proved.  The marginal-contribution vector is an XOS clause only for submodular games.
+
+FINDING 2 (violation key `max_xos:no-return:beta-below-half`): for beta < 1/2 the `while` loop of a cell can append an
+empty candidate and get the same coalition back from `_max_subroutine` — it never returns (n = 3, v = (0,4,1,4,2,4,2,5),
+alpha = 4, beta = 1/8, eps = 1/4; watchdog 1.5 s; the model answers err:other = "the loop state repeats").  For
+alpha > 0, beta ≥ 1/2, eps > 0, v(∅) = 0, singletons ≥ 1 termination is proved (`ICG.Mul.maxXos_returns`).
 
 "Non-trivial" (`res.nontrivial`): factor — success, n ≥ 2, ≥ 3 distinct ratios and a unique maximiser; xos / maxsub —
 game not invariant under any transposition of players, coalition with ≥ 2 players (maxsub: ≥ 2 passes of the while
@@ -467,7 +478,10 @@ def run_factor(tier, budget, rnd, res, script, rnd_no=0):
                 script.add(f"mul {op} {toks}", fnum(r[1]) if r[0] == "ok" else r[0], {"kind": "factor", "op": op, "case": replay, "n2": n2})
                 if r[0] == "hang":
                     res.violation(f"{op} did not return", dict(replay, op=op), key=f"factor:{op}:hang")
-                if r[0] == "ok" and vecs is not None:
+                if r[0] == "ok" and vecs is not None and not (all(d > 0 for d in vecs[1][1:]) and all(a >= d for a, d in zip(vecs[0][1:], vecs[1][1:]))):
+                    res.violation(f"{op}: returned a value although an assertion (num ≥ den > 0) does not hold", dict(replay, op=op, result=repr(r[1])),
+                                  key=f"factor:{op}:guard")
+                elif r[0] == "ok" and vecs is not None:
                     num, den = vecs[0][1:], vecs[1][1:]
                     rr = ratios_rounded(num, den)
                     x = float(r[1])
@@ -875,7 +889,7 @@ def run(tier: str, budget: Budget, rnd, arg) -> StreamResult:
     res = StreamResult(f"mul:{arg}")
     script = Script()
     post: list = []
-    total = max(budget.left(), 1.0) * 0.8                      # keep a reserve for the driver
+    total = max(budget.left(), 1.0) * (0.8 if tier == "quick" else 0.6)     # keep a reserve for the driver
     parts = list(PARTS) if arg in ("X-mul", None, "") else [arg if arg != "approx" else "maxxos"]
     cap = 12 if tier == "quick" else 40
     for part in parts:
@@ -943,7 +957,9 @@ def replay(prop, payload):
         r1, r2 = guarded(mul_factor_lower_upper_bound, inc), guarded(mul_factor_to_lower_bound, game, inc)
         msgs = []
         for (r, num, den, name) in ((r1, hi, lo, "lower_upper"), (r2, v, lo, "to_lower")):
-            if r[0] == "ok":
+            if r[0] == "ok" and not (all(d > 0 for d in den[1:]) and all(a >= d for a, d in zip(num[1:], den[1:]))):
+                msgs.append(f"{name}: returned {r[1]!r} although an assertion (num ≥ den > 0) does not hold")
+            elif r[0] == "ok":
                 rr = ratios_rounded(num[1:], den[1:])
                 if not all(float(r[1]) >= q for q in rr) or float(r[1]) not in rr or not float(r[1]) >= 1:
                     msgs.append(f"{name}: {float(r[1])!r} is not the attained maximum ratio ≥ 1")
